@@ -224,6 +224,11 @@ def level_body(level, nlevels, plan):
             # destructuring assignment updates the enclosing binding too
             stmts.append(("dassign", ["x"],
                           ("list", [("bin", "+", V("x"), L(100))])))
+        elif act == "S":
+            # a destructuring def with fewer values than names binds the
+            # remaining names (here x) in the current scope as well
+            stmts.append(("ddef", ["y%d" % level, "x"],
+                          ("list", [L(level * 10 + 5)])))
         elif act == "R":
             stmts.append(("log", ("list", [L(level), V("x")])))
         elif act == "C":
@@ -442,6 +447,15 @@ def family_programs():
                       ("list", [V("a"), V("b")])), True),
         ("pipe", ("seq", [("log", L("lhs")), L(1)]), V("f"),
          [("pos", ("seq", [("log", L("arg")), L(2)]))])])))
+    # a negative literal as the piped value is the first argument as it
+    # stands (int and decimal alike)
+    progs.append(("receiver", ("seq", [
+        ("def", "f", ("fn", [("a", None, False), ("b", None, False)],
+                      ("list", [V("a"), V("b")])), True),
+        ("list", [("pipe", ("raw", "-2.5", -2.5), V("f"), [("pos", L(1))]),
+                  ("pipe", ("raw", "-3", -3), V("f"), [("pos", L(1))]),
+                  ("pipe", ("pipe", ("raw", "-0.5", -0.5), V("f"),
+                            [("pos", L(1))]), V("f"), [("pos", L(2))])])])))
     # pipelines into member paths: x !> A->B->f(a) means (A->B->f)(x, a);
     # every level carries a same-named member with another meaning
     def lvl(tag, inner=None):
@@ -757,6 +771,9 @@ def main(tier, seed):
     inner = [list(t) for n in range(3)
              for t in itertools.product(ACTIONS[:3], repeat=n)]
     inner += [["X"], ["X", "R"], ["R", "X"], ["D", "X"], ["A", "X"]]
+    short = [["S", "R"], ["S", "A", "R"], ["S", "C", "R"]]
+    inner += short
+    seqs += short
     # quick: the destructuring assignment appears on the first and on the
     # innermost level only
     mid = seqs if tier == "thorough" else [q for q in seqs if "X" not in q]
